@@ -2,7 +2,6 @@ package props
 
 import (
 	"fmt"
-	"reflect"
 
 	"github.com/AsaiYusuke/jsonpath"
 	"pgregory.net/rapid"
@@ -23,6 +22,11 @@ func drawC08(rt *rapid.T) *Case {
 	c := &Case{Path: gen.Render(p, gen.Canon).Text, AST: p, Doc: d, UseNumber: rapid.Bool().Draw(rt, "usenumber"), Funcs: true}
 	if gen.Uniform(rt, "shared", 7) == 0 {
 		c.Ints = []int{1 + int(rapid.Uint32().Draw(rt, "shareseed"))}
+	} else if gen.Uniform(rt, "opaque", 9) == 0 {
+		// values that are not decoded JSON (pointers to containers, typed maps ...): what P selects
+		// is handed to '$'.Q as it is
+		c.Doc = g.Opaquify(d)
+		c.DocKind = "opaque"
 	}
 	return c
 }
@@ -88,6 +92,9 @@ func checkC08(c *Case, st *Stats) string {
 		doc = gen.ShareSubtrees(doc, uint64(c.Ints[0]))
 		st.Class("doc:shared-subtree")
 	}
+	if c.DocKind == "opaque" {
+		st.Class("doc:opaque-values")
+	}
 	steps := c.AST.Steps
 	for k := 1; k < len(steps); k++ {
 		if steps[k-1].Kind == gen.KFunc {
@@ -142,7 +149,7 @@ func checkC08(c *Case, st *Stats) string {
 			if errPQ != nil {
 				return fmt.Sprintf("split %d: P = %s, Q = %s: composition gives %s but P.Q fails: %v", k, pt, qt, JSONString(expected), errPQ)
 			}
-			if !reflect.DeepEqual(rPQ, expected) {
+			if !deepSameList(rPQ, expected) {
 				return fmt.Sprintf("split %d: P = %s, Q = %s:\n   P.Q         %s\n   composition %s", k, pt, qt, JSONString(rPQ), JSONString(expected))
 			}
 		}
@@ -182,7 +189,7 @@ func corollaries(Q []gen.Step, v interface{}, rQ []interface{}, errQ error, st *
 			}
 		}
 		st.Class("corollary:..X")
-		if (errQ == nil) != (len(expected) > 0) || (errQ == nil && !reflect.DeepEqual(rQ, expected)) {
+		if (errQ == nil) != (len(expected) > 0) || (errQ == nil && !deepSameList(rQ, expected)) {
 			return fmt.Sprintf("'..X' differs from X applied to every container in pre-order:\n   ..X      (%s, %v)\n   expanded %s", JSONString(rQ), errQ, JSONString(expected))
 		}
 		return ""
@@ -235,7 +242,7 @@ func corollaries(Q []gen.Step, v interface{}, rQ []interface{}, errQ error, st *
 		}
 	}
 	st.Class("corollary:union/multi")
-	if (errQ == nil) != (len(expected) > 0) || (errQ == nil && !reflect.DeepEqual(rQ, expected)) {
+	if (errQ == nil) != (len(expected) > 0) || (errQ == nil && !deepSameList(rQ, expected)) {
 		return fmt.Sprintf("selector differs from the concatenation of its single selectors:\n   whole  (%s, %v)\n   concat %s", JSONString(rQ), errQ, JSONString(expected))
 	}
 	return ""
